@@ -293,6 +293,7 @@ type Quirks struct {
 	AliasCopy   bool // copy inserts the very same node (no deep copy)
 	MoveCopySet bool // move/copy "set" the destination: an array index is overwritten (or the array extended with nulls) instead of inserted
 	NullTest    bool // test compares containers with a nil-unsafe routine: a null inside an array (or on one side of an object member) makes it fail
+	Lenient     bool // nothing but the lenient lookups every quirk mode already has: a missing object member reads as null, so replace / test / move / copy of a member that does not exist are not refused
 }
 
 // Name lists the enabled quirks.
@@ -307,12 +308,15 @@ func (q Quirks) Name() string {
 	if q.NullTest {
 		n = append(n, "null-in-test")
 	}
+	if q.Lenient {
+		n = append(n, "lenient-lookup")
+	}
 	return strings.Join(n, "+")
 }
 
 // AllQuirkSubsets lists the non-empty subsets ordered by size.
 func AllQuirkSubsets() []Quirks {
-	return []Quirks{{AliasCopy: true}, {MoveCopySet: true}, {NullTest: true},
+	return []Quirks{{Lenient: true}, {AliasCopy: true}, {MoveCopySet: true}, {NullTest: true},
 		{AliasCopy: true, MoveCopySet: true}, {AliasCopy: true, NullTest: true}, {MoveCopySet: true, NullTest: true},
 		{AliasCopy: true, MoveCopySet: true, NullTest: true}}
 }
